@@ -622,6 +622,16 @@ class FuncFold(ModuleFold):
     def stmt(self, st):
         if isinstance(st, ast.Return):
             raise _Return(self.lit().ev(st.value) if st.value is not None else None)
+        if isinstance(st, ast.FunctionDef) and self.opaque is not None and getattr(self.opaque, 'wants_lit', False):
+            class _E:          # hands the live environment (not a copy) to the hook that builds the closure
+                pass
+            e = _E()
+            e.env = self.env
+            v = self.opaque(st, e)
+            if v is None:
+                raise NotLiteral('nested function')
+            self.env[st.name] = v
+            return
         if isinstance(st, ast.Expr) and isinstance(st.value, ast.Yield) and self.yields is not None:
             self.yields.append(self.lit().ev(st.value.value) if st.value.value is not None else None)
             if len(self.yields) > 200000:
